@@ -18,11 +18,13 @@
 (*               sweeps but the last retain the graph, the last one uses   *)
 (*               the caller's flag.                                        *)
 (* TLC checks Impl => Prop (refinement) and the invariants below for every *)
-(* (m, k, retain) with m <= MaxM, k in {None, 1 .. m+2}.                   *)
+(* (m, k, retain) with m <= MaxM, k in {None, 1 .. m+2}, plus the sparse    *)
+(* family m in LargeM, k in LargeK(m).                                     *)
 (***************************************************************************)
 EXTENDS Integers, Sequences, FiniteSets, TLC, Json
 
-CONSTANTS MaxM
+CONSTANTS MaxM,      \* every m in 1..MaxM with every k in {None, 1..m+2} (exhaustive)
+          LargeM     \* a sparse set of larger row counts (each > MaxM), each with the ladder LargeK(m) of chunk sizes
 
 VARIABLES m,             \* number of rows
           k,             \* parallel_chunk_size, 0 = None
@@ -39,12 +41,16 @@ Cap       == IF k = 0 THEN m ELSE k
 NSweeps   == CeilDiv(m, Cap)
 Rows      == 1..m
 
-TypeOK == /\ m \in 1..MaxM /\ k \in 0..(MaxM + 2) /\ retainCaller \in BOOLEAN
+\* chunk sizes tried for a large m: None, 1, a small odd one, around typical internal batching limits
+\* (2^5, 2^6 and their neighbours), and around m itself
+LargeK(mm) == {0, 1, 7, 31, 32, 33, 64, 65, mm - 1, mm, mm + 1}
+MaxAll == IF LargeM = {} THEN MaxM ELSE CHOOSE x \in LargeM : \A y \in LargeM : x >= y
+TypeOK == /\ m \in (1..MaxM) \cup LargeM /\ k \in 0..(MaxAll + 2) /\ retainCaller \in BOOLEAN
           /\ done \subseteq Rows /\ status \in {"running", "done"}
           /\ \A i \in DOMAIN sweeps : sweeps[i].rows \in 1..m
 
-Init == /\ m \in 1..MaxM
-        /\ k \in 0..(m + 2)
+Init == /\ m \in (1..MaxM) \cup LargeM
+        /\ k \in (IF m <= MaxM THEN 0..(m + 2) ELSE LargeK(m))
         /\ retainCaller \in BOOLEAN
         /\ done = {} /\ sweeps = <<>> /\ assembled = <<>> /\ status = "running"
 
